@@ -543,16 +543,25 @@ func (c *FnVC) typeAssert(x *ssa.TypeAssert) {
 	at := x.AssertedType
 	var ok, val string
 	if _, isI := at.Underlying().(*types.Interface); isI {
-		okc := c.freshConst("implements", "Bool")
-		// nil interfaces never satisfy an assertion
-		c.assume(fmt.Sprintf("(=> (= (i_typ %s) 0) (not %s))", iv, okc))
+		// Whether a dynamic type satisfies an interface is a fixed (uninterpreted) relation
+		// between type ids: two assertions on the same value agree, the types the program
+		// names are decided by go/types, and an interface with unexported methods is only
+		// satisfied by types of its own package (closed world). nil never satisfies it.
+		ifid := c.P.typeID(at)
+		c.noteIfaceAssert(at)
+		okc := c.freshName("implements")
 		if types.Identical(at.Underlying(), x.X.Type().Underlying()) || types.AssignableTo(x.X.Type(), at) {
-			c.assume(fmt.Sprintf("(= %s (not (= (i_typ %s) 0)))", okc, iv))
+			c.def(okc, "Bool", fmt.Sprintf("(not (= (i_typ %s) 0))", iv))
+		} else {
+			c.def(okc, "Bool", fmt.Sprintf("(and (not (= (i_typ %s) 0)) (implements (i_typ %s) %d))", iv, iv, ifid))
+			c.closedWorld(at, ifid, iv)
 		}
+		c.syncImplFacts()
 		ok = okc
 		val = ite(okc, iv, "NilIface")
 	} else {
 		ok = fmt.Sprintf("(= (i_typ %s) %d)", iv, c.P.typeID(at))
+		c.syncImplFacts()
 		z := c.te.zeroOf(at)
 		val = c.unbox(at, "(i_val "+iv+")")
 		if z != "" {
@@ -612,4 +621,91 @@ func isSyncNoopName(n string) bool {
 		return true
 	}
 	return strings.HasPrefix(n, "(*sync.Once)") && false
+}
+
+func (c *FnVC) noteIfaceAssert(at types.Type) {
+	for _, t := range c.ifaceAsserted {
+		if types.Identical(t, at) {
+			return
+		}
+	}
+	c.ifaceAsserted = append(c.ifaceAsserted, at)
+}
+
+// syncImplFacts: for every interface this function asserts to and every concrete type the
+// program has named so far, state whether the type implements the interface (go/types).
+func (c *FnVC) syncImplFacts() {
+	if c.implKnown == nil {
+		c.implKnown = map[string]bool{}
+	}
+	for _, it := range c.ifaceAsserted {
+		ifid := c.P.typeID(it)
+		iface, _ := it.Underlying().(*types.Interface)
+		if iface == nil {
+			continue
+		}
+		for i := 0; i < len(c.P.typeByID); i++ {
+			t := c.P.typeByID[i]
+			if _, isI := t.Underlying().(*types.Interface); isI {
+				continue
+			}
+			k := fmt.Sprintf("%d:%d", i+1, ifid)
+			if c.implKnown[k] {
+				continue
+			}
+			c.implKnown[k] = true
+			if types.Implements(t, iface) {
+				c.assume(fmt.Sprintf("(implements %d %d)", i+1, ifid))
+			} else {
+				c.assume(fmt.Sprintf("(not (implements %d %d))", i+1, ifid))
+			}
+		}
+	}
+}
+
+// closedWorld: an interface type that is itself unexported and has an unexported method can
+// only be satisfied by types declared in its own package; instantiate that for value iv.
+func (c *FnVC) closedWorld(at types.Type, ifid int, iv string) {
+	named, ok := at.(*types.Named)
+	if !ok || named.Obj().Exported() || named.Obj().Pkg() == nil {
+		return
+	}
+	iface, _ := at.Underlying().(*types.Interface)
+	if iface == nil {
+		return
+	}
+	unexp := false
+	for i := 0; i < iface.NumMethods(); i++ {
+		if !iface.Method(i).Exported() {
+			unexp = true
+		}
+	}
+	if !unexp {
+		return
+	}
+	scope := named.Obj().Pkg().Scope()
+	var alts []string
+	for _, n := range scope.Names() {
+		tn, ok := scope.Lookup(n).(*types.TypeName)
+		if !ok || tn.IsAlias() {
+			continue
+		}
+		t := tn.Type()
+		if _, isI := t.Underlying().(*types.Interface); isI {
+			continue
+		}
+		if tp, ok := t.(*types.Named); ok && tp.TypeParams().Len() > 0 {
+			continue
+		}
+		for _, cand := range []types.Type{t, types.NewPointer(t)} {
+			if types.Implements(cand, iface) {
+				alts = append(alts, fmt.Sprintf("(= (i_typ %s) %d)", iv, c.P.typeID(cand)))
+			}
+		}
+	}
+	if len(alts) == 0 {
+		c.assume(fmt.Sprintf("(not (implements (i_typ %s) %d))", iv, ifid))
+		return
+	}
+	c.assume(fmt.Sprintf("(=> (implements (i_typ %s) %d) (or %s false))", iv, ifid, strings.Join(alts, " ")))
 }
